@@ -52,7 +52,10 @@ RULE = (
     "list lengths 1..9, integer/decimal/scientific concentrations, identifier shapes) x random layouts (blanks/tabs around every "
     "token, comments, blank lines, LF/CRLF, last line without newline); documents of 1..20 statements; a systematic family of "
     "argument deletions, insertions and kind swaps, negative concentrations and inputs bound to a fluorophore that must be "
-    "rejected (only mutations that the grammar's typing refuses); character-level mutations. non-trivial = distinct agreed token trees")
+    "rejected (only mutations that the grammar's typing refuses); character-level mutations; on the implementation only: parser "
+    "histories, files, and re-parsing after the caller destroyed the token tree it was given (one statement of every kind, the same "
+    "text twice, a document then its statements, a statement repeated in one document, one re-written file; results are made of new "
+    "list objects every time). non-trivial = distinct agreed token trees")
 
 CFG = {"op": "parse_seesaw", "oracle": "c19.py", "dialect": "seesaw", "fn": "parse_seesaw_string",
        "fn_file": "parse_seesaw_file", "build": build, "norm_tree": lambda t: t, "rule": RULE, "kinds": st.KINDS}
